@@ -1500,6 +1500,28 @@ def _triplets_leaf(code, trip):
     return fix(code)
 
 
+_INT_TYPES = {"builtins.int", "numpy.int64", "numpy.int32", "numpy.int16", "numpy.int8", "numpy.intp", "numpy.int_", "numpy.uint64", "numpy.uint32", "numpy.uint16", "numpy.uint8", "numpy.integer"}
+
+
+def _is_int_type(v):
+    v = strip(v)
+    return (head(v) == "glob" and v[1] in _INT_TYPES) or (is_const(v) and isinstance(v[2], str) and (v[2].startswith("int") or v[2].startswith("uint") or v[2] in ("i", "i4", "i8", "u4", "u8", "l")))
+
+
+def _integer_cast(t):
+    """A sub-term that converts to an integer type (dtype=<int> keyword, .astype(<int>), numpy.int64(...) / int(...) applied to an array-valued
+    term is not considered here: only dtype arguments), else None."""
+    for x in walk(strip_all(t)):
+        if head(x) == "call":
+            kw = dict(x[3])
+            if "dtype" in kw and _is_int_type(kw["dtype"]):
+                return x
+            fn = strip(x[1])
+            if head(fn) == "attr" and fn[2] == "astype" and x[2] and _is_int_type(x[2][0]):
+                return x
+    return None
+
+
 def _coo_ok(r, rule, nn, s, call, trip, seqs, seqs2, where):
     q = s.func.qualname
     c = strip(call)
@@ -1510,6 +1532,12 @@ def _coo_ok(r, rule, nn, s, call, trip, seqs, seqs2, where):
         data, (row, col) = arg[1][0], strip(arg[1][1])[1]
         ks = [_accum_component(s, x, trip) for x in (data, row, col)]
         ok_parts = ks == [2, 1, 0]
+        cast = _integer_cast(data)
+        if cast is not None:
+            # recognisably wrong whatever the surrounding shape: the distance component is forced into an integer type (custom distances are real numbers)
+            r.rep.ob(rule, q, False, "the matrix holds the reported distances as they are (no narrowing dtype or other conversion)", where, expected="distances stored unconverted",
+                     found="integer conversion " + show(cast, 60), key="coo data integer cast")
+            return False, ""
         if None in ks:
             r.rep.require(False, f"{q}: the data / row / col arguments of coo_matrix are not per-triplet component lists of the idiom list ({show(data, 40)}, ...); cannot decide [{rule}]")
             return None, ""
@@ -1624,6 +1652,17 @@ def check_validation(r, rule):
     # element type checks: an assertion on every element, directly in a loop or through a helper that loops over its argument
     def elem_asserts_of(summ, container, ctx_guards, modname):
         for e in summ.events_of("assert"):
+            c0 = strip(e["cond"])
+            if not e.ctx.loops and is_call(c0, "builtins.all") and len(c0[2]) == 1 and head(strip(c0[2][0])) == "comp" and len(strip(c0[2][0])[3]) == 1:
+                # assert all(type(x) in TYPES for x in container)
+                cp = strip(c0[2][0])
+                elem, conds = cp[3][0]
+                c = strip(cp[2])
+                if not conds and strip(elem[3]) == container and head(c) == "cmp" and c[1] == "in" and is_call(c[2], "builtins.type") and strip(c[2][2][0]) == elem:
+                    types = _type_set(nn, modname, c[3]) or set()
+                    if ("glob", "builtins.str") in types and types <= {("glob", "builtins.str"), ("glob", "numpy.str_")}:
+                        yield e, tuple(ctx_guards) + tuple(e.ctx.guards)
+                continue
             if len(e.ctx.loops) == 1:
                 lp = summ.loops[e.ctx.loops[0]]
                 if strip(lp.iterable) == container:
